@@ -1,21 +1,21 @@
 SPECIFICATION Spec
 CONSTANTS
-  Stacks <- StacksTimes
-  Outcomes <- Out1
+  Stacks <- StacksText
+  Outcomes <- Out4
   TagOps <- TagOps2
-  Times = {"1", "none"}
-  MaxCalls = 9
-  MaxTests = 1
+  Times = {"1", "2"}
+  MaxCalls = 11
+  MaxTests = 3
   MaxRuns = 1
   MaxTagOps = 0
-  MaxTimes = 2
-  MaxIds = 9
+  MaxTimes = 0
+  MaxIds = 1
   AllowStop = FALSE
   AllowSetFF = FALSE
   AllowSkipNoStart = FALSE
-  AllowDone = TRUE
-  AllowProgress = TRUE
-  PreFF = {FALSE}
+  AllowDone = FALSE
+  AllowProgress = FALSE
+  PreFF = {FALSE, TRUE}
   Coded = {}
 CONSTRAINT ExportC
 INVARIANT Verdict
